@@ -117,3 +117,12 @@ func VerifDecodeString(buf []byte) (res string) {
 	}
 	return fmt.Sprintf("ok %x %d", lit, c)
 }
+
+// VerifCacheIndex evaluates the fast-path guard and index expression of CompileToGetDecoder.
+func VerifCacheIndex(typeptr uintptr) (index int, fast bool, size int) {
+	initDecoder()
+	if typeptr > typeAddr.MaxTypeAddr || typeptr < typeAddr.BaseTypeAddr {
+		return 0, false, len(cachedDecoder)
+	}
+	return int((typeptr - typeAddr.BaseTypeAddr) >> typeAddr.AddrShift), true, len(cachedDecoder)
+}
